@@ -222,13 +222,13 @@ func (r *run) compare(clause string, h uint32, got, want *obs) (clean, ok bool) 
 		}
 		sig := r.cfg.Prop + ":" + clause + ":" + v.name + df.Sig()
 		detail := fmt.Sprintf("height %d: %s%s = %s, direct build has %s", h, v.name, df.Path, df.A, df.B)
-		if r.cfg.Side == DPoS && r.overThresholdOutsideSet(df) {
-			// forward inconsistency, not a rollback one: in the direct build a
-			// producer with vote rights over DPoSV2EffectiveVotes is missing from
-			// DposV2EffectedProducers (a vote renewal lifted it over the threshold;
-			// only new votes maintain the set), so undoing a later vote keeps it
-			// in the set by the set's own rule.  One finding.
-			sig = r.cfg.Prop + ":" + clause + ":effected-set-lacks-a-producer-over-the-threshold"
+		if r.cfg.Side == DPoS && r.effectedSetContradictsRights(df) {
+			// forward inconsistency, not a rollback one: in the direct build the
+			// membership of a producer in DposV2EffectedProducers contradicts its
+			// vote rights (renewals raise and expiries lower the rights without
+			// maintaining the set; only new votes and their rollbacks apply the
+			// rule), so undoing a later vote "repairs" the set.  One finding.
+			sig = r.cfg.Prop + ":" + clause + ":effected-set-of-the-direct-build-contradicts-the-vote-rights"
 		}
 		if !vk.Report(r.t, sig, detail, r.render()) {
 			return false, false
@@ -239,12 +239,13 @@ func (r *run) compare(clause string, h uint32, got, want *obs) (clean, ok bool) 
 	return true, true
 }
 
-// overThresholdOutsideSet: the difference is a DposV2EffectedProducers entry
-// the direct build lacks although that producer's DPoS 2.0 vote rights are at
-// or over the threshold in the compared state.
-func (r *run) overThresholdOutsideSet(df *canon.Diff) bool {
+// effectedSetContradictsRights: the difference is a DposV2EffectedProducers
+// entry present on one side only, and it is the DIRECT build whose membership
+// contradicts the set's rule (in the set <=> DPoS 2.0 vote rights at or over
+// DPoSV2EffectiveVotes) for the vote rights of the compared state.
+func (r *run) effectedSetContradictsRights(df *canon.Diff) bool {
 	const pre = "State.StateKeyFrame.DposV2EffectedProducers["
-	if !strings.HasPrefix(df.Path, pre) || df.B != "<absent>" {
+	if !strings.HasPrefix(df.Path, pre) || (df.A != "<absent>") == (df.B != "<absent>") {
 		return false
 	}
 	rest := df.Path[len(pre):]
@@ -257,7 +258,12 @@ func (r *run) overThresholdOutsideSet(df *canon.Diff) bool {
 		return false
 	}
 	p := r.k.Arbiters.State.GetProducer(owner)
-	return p != nil && p.GetTotalDPoSV2VoteRights() >= float64(r.k.Params.DPoSV2EffectiveVotes)
+	if p == nil {
+		return false
+	}
+	over := p.GetTotalDPoSV2VoteRights() >= float64(r.k.Params.DPoSV2EffectiveVotes)
+	directHasIt := df.B != "<absent>"
+	return over != directHasIt
 }
 
 func (r *run) advance(n int) {
@@ -660,6 +666,9 @@ func (r *run) classify() {
 	}
 	if r.crChg {
 		vk.Class("has-committee-change")
+	}
+	if r.k.Arbiters.State.DPoSV2ActiveHeight != ^uint32(0) {
+		vk.Class("dpos-v2-activation-scheduled")
 	}
 	if r.secondTerm {
 		vk.Class("second-committee-seated")
